@@ -68,6 +68,23 @@ fn mt_result_typed<T: BigT>(g: &GraphSpec) {
             if sinks.iter().any(|h| h.data().samples().iter().any(|s| *s != T::from(s.val()))) {
                 violate("torn-sample", "a sink holds a torn sample".into());
             }
+            if g.shape == Shape::ToFile {
+                // Everything the source emitted was consumed by the sink: it
+                // has to be in the file (serialised as the value, 8 bytes LE).
+                let bytes = std::fs::read(tofile_path()).unwrap_or_default();
+                let got: Vec<u64> = bytes.chunks(8).map(|c| {
+                    let mut a = [0u8; 8];
+                    a[..c.len()].copy_from_slice(c);
+                    u64::from_le_bytes(a)
+                }).collect();
+                let want = g.source_data();
+                if bytes.len() % 8 != 0 || got != want {
+                    violate(
+                        "file-differs",
+                        format!("run() returned; the file holds {} bytes = {got:?}, the stream was {want:?}", bytes.len()),
+                    );
+                }
+            }
         }
     }
     drop(graph);
